@@ -2,7 +2,9 @@
 (***************************************************************************)
 (* C14 monitor, differential form.  One trace line = one input run under   *)
 (* *every* vector of the boolean switches                                  *)
-(*   names, producers, dwarf, xform (preserve_code_transform), stable.     *)
+(*   names, producers, dwarf, xform (preserve_code_transform), stable,     *)
+(*   synth (generate_synthetic_names_for_anonymous_items),                 *)
+(* and some of them again with strict (strict_validate) off.               *)
 (* No layout is assumed: for two vectors that differ in exactly one switch *)
 (* the section inventories (sequences of <<id, name, digest>>) must differ *)
 (* by exactly the section that switch governs and be identical otherwise.  *)
@@ -15,7 +17,7 @@ Cases == ndJsonDeserialize(IOEnv.TRACEFILE)
 VARIABLES k, verdict
 vars == <<k, verdict>>
 
-FlagNames == {"names", "producers", "dwarf", "xform", "stable"}
+FlagNames == {"names", "producers", "dwarf", "xform", "stable", "synth", "strict"}
 Ran(f) == {f[x] : x \in DOMAIN f}
 
 Row(s) == <<s.id, s.name, s.digest>>
@@ -40,6 +42,15 @@ ProducersOK(inp, out) ==
         Cardinality({x \in DOMAIN out[q].values : out[q].values[x][1] = "walrus"}) = 1
   /\ \A q \in DOMAIN out : out[q].field # "processed-by" => out[q].values = (IF q \in DOMAIN inp THEN inp[q].values ELSE <<>>)
 
+\* decoded function / local names of a run, as a set of <<kind, idx, sub, name>>
+NameSet(r) == Ran(r.names)
+\* synthetic names: only the name section may differ; every name of the plain run is kept; every local function is named
+SynthOK(a, b) ==
+  /\ Without(a, IsName) = Without(b, IsName)
+  /\ NameSet(b) \subseteq NameSet(a)
+  /\ a.flags["names"] => \A q \in DOMAIN a.localfuncs : \E n \in NameSet(a) : n[1] = "func" /\ n[2] = a.localfuncs[q]
+  /\ ~a.flags["names"] => Rows(a) = Rows(b)
+
 RunVerdict(c, r) ==
   IF r.outcome = "parse-err" THEN (IF r.calls = 0 THEN <<"ok">> ELSE <<"on-parse-ran-on-failed-parse", r.flags, r.calls>>)
   ELSE IF r.outcome # "ok" THEN <<"outcome", r.flags, r.outcome>>
@@ -58,6 +69,8 @@ PairVerdict(a, b) ==
   ELSE IF OnlyDiffer(a, b, "dwarf") /\ Rows(b) # Without(a, IsDebug) THEN <<"dwarf-switch-changes-more-than-its-sections", a.flags>>
   ELSE IF OnlyDiffer(a, b, "xform") /\ Rows(b) # Rows(a) THEN <<"preserve-code-transform-changes-the-binary", a.flags>>
   ELSE IF OnlyDiffer(a, b, "stable") /\ Rows(b) # Rows(a) THEN <<"only-stable-features-changes-the-binary", a.flags>>
+  ELSE IF OnlyDiffer(a, b, "strict") /\ Rows(b) # Rows(a) THEN <<"strict-validate-changes-the-binary", a.flags>>
+  ELSE IF OnlyDiffer(a, b, "synth") /\ ~SynthOK(a, b) THEN <<"synthetic-names-switch-does-more-or-less-than-naming-anonymous-items", a.flags>>
   ELSE <<"ok">>
 
 Verdict(c) ==
